@@ -11,6 +11,7 @@ from ..viol import Violation, require
 ID = 'C10'
 LEVEL = 'exploration'
 RULE = (
+    'Sandwich: support / count / pick_iter / is_essential of all 256 functions over a manager with an unused variable, one perturbation (undeclare / declare / swap / collect / reorder / sift), the same queries again. '
     'H: Hypothesis histories in which support / is_essential / count / pick / pick_iter are queried between constructions, drops, collections (node numbers re-used), swaps, reorderings and (un)declarations. '
     'E: every function of n<=4 variables (n<=3: all orders; n=4: 2 seeded '
     'orders quick / 6 thorough, split in parts), regular and complemented '
@@ -47,9 +48,41 @@ def _hist_plan(tier, seed):
             for s in range(8 if tier == 'thorough' else 4)]
 
 
+def _sandwich_calls(b, refs, nm, den):
+    n = 3
+    for t in range(256):
+        def call(t=t):
+            u = refs[t]
+            sup = {nm[j] for j in tt.support(t, n)}
+            require(set(b.support(u)) == sup,
+                    'support.wrong_after_perturbation',
+                    dict(got=sorted(b.support(u)), want=sorted(sup)))
+            k = len(sup)
+            base = tt.popcount(t) >> (n - k)
+            require(b.count(u) == base, 'count.wrong_after_perturbation')
+            require(b.count(u, k + 2) == base * 4,
+                    'count.wrong_after_perturbation')
+            items = list(b.pick_iter(u))
+            require(len(items) == base and all(set(d) == sup for d in items),
+                    'pick_iter.wrong_after_perturbation')
+            for d in items:
+                i = sum(1 << nm.index(x) for x, v in d.items() if v)
+                require((t >> i) & 1, 'pick_iter.not_model')
+            care = set(nm)
+            full = list(b.pick_iter(u, care))
+            require(len(full) == tt.popcount(t),
+                    'pick_iter.care_wrong_after_perturbation',
+                    dict(got=len(full), want=tt.popcount(t)))
+            for x in nm:
+                require(bool(b.is_essential(u, x)) == (x in sup),
+                        'is_essential.wrong_after_perturbation')
+        yield dict(t=t), call
+
+
 def plan(tier, seed):
     specs = []
     specs += _hist_plan(tier, seed)
+    specs += fix.sandwich_specs(tier, seed)
     for n in (0, 1, 2, 3):
         for order in fix.orders(n):
             specs.append(dict(kind='all', n=n, order=order, part=0, parts=1,
@@ -227,12 +260,18 @@ def run_all(spec, out):
 
 
 def run(spec, out):
+    if spec['kind'] == 'sandwich':
+        return fix.run_sandwich(spec, out, _sandwich_calls)
     if spec['kind'] == 'history':
         return H.run_random(spec, out, HIST_ALPHA, _hist_nontrivial)
     run_all(spec, out)
 
 
 def replay_into(case, out):
+    if case.get('kind') == 'sandwich':
+        return fix.run_sandwich({k: case[k] for k in (
+            'kind', 'perturbation', 'pos', 'order', 'seed')}, out,
+            _sandwich_calls)
     if case.get('kind') == 'history':
         return H.replay_into(case, out)
     spec = {k: case[k] for k in ('kind', 'n', 'order', 'seed')}
